@@ -279,11 +279,11 @@ func (w *world) step(o hx.T) (any, error) {
 		if c == nil {
 			return "BIgnored", nil
 		}
-		if err := n.CloseAndWait(c); err != nil {
+		if err := n.CloseAndAwait(c); err != nil {
 			return nil, err
 		}
 		w.dead[o.Int(0)] = true
-		view, ok := n.CloseViewOn(c.Front, c.NetId)
+		view, ok := w.closeView(c.Front, c.NetId)
 		if !ok {
 			return nil, fmt.Errorf("c10: no (or inconsistent) OnClose view for connection %d", c.NetId)
 		}
@@ -300,6 +300,16 @@ func (w *world) step(o hx.T) (any, error) {
 		ev, err := w.call(c, "gate.h.fset", map[string]any{"K": keyName(o.Int(1)), "V": valOf(o.Args[2])})
 		if err != nil || ev.Err {
 			return nil, fmt.Errorf("c10: fset failed: %v", err)
+		}
+		return "BUnit", nil
+	case "OFrontHook":
+		c := w.live(o.Int(0))
+		if c == nil {
+			return "BIgnored", nil
+		}
+		ev, err := w.call(c, "gate.h.fhook", map[string]any{})
+		if err != nil || ev.Err {
+			return nil, fmt.Errorf("c10: fhook failed: %v", err)
 		}
 		return "BUnit", nil
 	case "OFrontGet":
@@ -482,13 +492,13 @@ func (w *world) step(o hx.T) (any, error) {
 		}
 		if kicks && wasLive {
 			// the connection was kicked: it is removed after the script's messages
-			if err := n.WaitRemovedOn(fi, net); err != nil {
+			if err := n.AwaitRemoval(fi, net); err != nil {
 				return nil, err
 			}
 			if t, ok := w.tokOf[fnet{fi, net}]; ok {
 				w.dead[t] = true
 			}
-			view, ok := n.CloseViewOn(fi, net)
+			view, ok := w.closeView(fi, net)
 			if !ok {
 				return nil, fmt.Errorf("c10: no (or inconsistent) OnClose view for connection %d", net)
 			}
@@ -529,6 +539,14 @@ func (w *world) backFront(h int64) int {
 	return 0
 }
 
+// closeView: what the close handlers saw (the panicking callback's own view when there is one)
+func (w *world) closeView(fi int, id uint32) (string, bool) {
+	if w.n.Hooked(fi, id) {
+		return w.n.HookedCloseView(fi, id)
+	}
+	return w.n.CloseViewOn(fi, id)
+}
+
 type broken struct{ err error }
 
 func (b *broken) Error() string { return b.err.Error() }
@@ -546,7 +564,7 @@ func Exec(n *e2e.Node, ops []hx.T) (obs []any, nontrivial bool, err error) {
 		}
 		for sid, c := range w.conns {
 			if !w.dead[sid] {
-				if e := n.CloseAndWait(c); e != nil && err == nil {
+				if e := n.CloseAndAwait(c); e != nil && err == nil {
 					err = e
 				}
 			}
